@@ -44,6 +44,11 @@ theorem cov_shape_nd (L : List Name) (shape : List Nat) (flat : List α) :
     (∃ v, fromCovND L shape flat = .ok v) ↔ shape = [L.length, L.length] := by
   unfold fromCovND; split <;> simp_all
 
+/-! the layout is CODE-POINT order, not "natural" order: `x10` sorts before `x2` (a test on literals, labelled as such — the
+by-name theorems above hold for whatever order `layout` produces; this pins which order the model, like Python's `sorted`, uses) -/
+example : layout ["x2", "x10", "x1"] = ["x1", "x10", "x2"] ∧ layout ["r2", "r10"] = ["r10", "r2"] ∧
+    layout ["B_1", "B1", "b"] = ["B1", "B_1", "b"] := by decide
+
 /-! non-vacuity: right counts in wrong shapes -/
 example : (fromDataND ["a", "b", "c", "d"] [2, 2] [1, 2, 3, 4] : Except BindErr (List Nat)) = .error (.badShape 4 2) ∧
     (fromDataND ["a", "b"] [1, 2] [1, 2] : Except BindErr (List Nat)) = .error (.badShape 2 2) ∧
